@@ -58,27 +58,28 @@ func (a attr) json() []any { return []any{a.S, a.Paren, a.Sig, a.PC} }
 
 // kindTable mirrors K in CrashParseMC.tla.
 var kindTable = map[string]attr{
-	"SentOk1":    {"sent1", false, false, "none"},
-	"SentOk2":    {"sent2", false, false, "none"},
-	"SentZero":   {"sent0", false, false, "none"},
-	"SentBad":    {"sentbad", false, false, "none"},
-	"HdrRun":     {"run", false, false, "none"},
-	"HdrOther":   {"other", false, false, "none"},
-	"HdrOtherP":  {"other", true, false, "none"},
-	"Blank":      {"blank", false, false, "none"},
-	"Created":    {"created", false, false, "none"},
-	"Elided":     {"elided", false, false, "none"},
-	"SymSig":     {"text", true, true, "none"},
-	"SymPlain":   {"text", true, false, "none"},
-	"SymParen1":  {"text", true, false, "none"},
-	"NoParen":    {"text", false, false, "none"},
-	"LocNoPc":    {"text", false, false, "none"},
-	"LocPc":      {"text", false, false, "ok"},
-	"LocParenPc": {"text", true, false, "ok"},
-	"LocPathPc":  {"text", false, false, "okpath"},
-	"LocHuge":    {"text", false, false, "huge"},
-	"LocOddPc":   {"text", false, false, "huge"},
-	"LocBad":     {"text", false, false, "bad"},
+	"SentOk1":     {"sent1", false, false, "none"},
+	"SentOk2":     {"sent2", false, false, "none"},
+	"SentZero":    {"sent0", false, false, "none"},
+	"SentBad":     {"sentbad", false, false, "none"},
+	"HdrRun":      {"run", false, false, "none"},
+	"HdrOther":    {"other", false, false, "none"},
+	"HdrOtherP":   {"other", true, false, "none"},
+	"Blank":       {"blank", false, false, "none"},
+	"Created":     {"created", false, false, "none"},
+	"Elided":      {"elided", false, false, "none"},
+	"SymSig":      {"text", true, true, "none"},
+	"SymPlain":    {"text", true, false, "none"},
+	"SymParen1":   {"text", true, false, "none"},
+	"NoParen":     {"text", false, false, "none"},
+	"LocNoPc":     {"text", false, false, "none"},
+	"LocNoPcPath": {"text", false, false, "nonepath"},
+	"LocPc":       {"text", false, false, "ok"},
+	"LocParenPc":  {"text", true, false, "ok"},
+	"LocPathPc":   {"text", false, false, "okpath"},
+	"LocHuge":     {"text", false, false, "huge"},
+	"LocOddPc":    {"text", false, false, "huge"},
+	"LocBad":      {"text", false, false, "bad"},
 }
 
 // renderAll is the harness' own uncompressed rendering of a PC list (the
@@ -460,7 +461,7 @@ func concretize(kinds []string, variant int, rng *rand.Rand, vt *valueTable, pla
 	}
 	var c concrete
 	var sb strings.Builder
-	npc, nhuge := 0, 0
+	npc, nhuge, nword := 0, 0, 0
 	phase := 0 // 0 before the first running header, 1 inside its block, 2 after
 	loc := func(path string, pc uint64) string {
 		line, off := 12, 0x1d
@@ -560,6 +561,25 @@ func concretize(kinds []string, variant int, rng *rand.Rand, vt *valueTable, pla
 			nhuge++
 			id, _ = vt.add(j)
 			ln = loc(pick(pathsPlain), j+delta)
+		case "LocNoPcPath":
+			// the location line of an inlined call (no fp/sp/pc fields) whose FILE PATH
+			// contains, between blanks, a word pc=0x<address of real code of this
+			// binary>; the canonical / control rendering has "_pc_" instead
+			addr := markerPCs[len(markerPCs)-1-nword%8] + delta
+			nword++
+			vt.add(addr - delta) // so that a frame made from it can be read back
+			dirs := []string{"/home/u/my pc=0x%x dir/main.go", "/data/x pc=0x%x /y.go", "/w/a pc=0x%x b/pc=0x1/z.go", "/srv pc=0x%x"}
+			path := fmt.Sprintf(pick(dirs), addr)
+			if variant == 0 || plainPC {
+				path = strings.ReplaceAll(path, " pc=", "_pc_")
+			} else {
+				c.pathPC = true
+			}
+			if variant != 0 && rng.Intn(2) == 0 {
+				ln = fmt.Sprintf("\t%s:%d +0x%x", path, 85, 0x1d)
+			} else {
+				ln = fmt.Sprintf("\t%s:%d", path, 85)
+			}
 		case "LocOddPc":
 			// a real PC written in a notation strconv accepts with base 0 but the
 			// runtime never prints
@@ -618,7 +638,7 @@ func detail(o outcome) rt.M {
 func randomKinds(rng *rand.Rand) []string {
 	var ks []string
 	add := func(k ...string) { ks = append(ks, k...) }
-	all := []string{"SentOk1", "SentOk2", "SentZero", "SentBad", "HdrRun", "HdrOther", "HdrOtherP", "Blank", "Created", "Elided", "SymSig", "SymPlain", "SymParen1",
+	all := []string{"SentOk1", "SentOk2", "SentZero", "SentBad", "HdrRun", "HdrOther", "HdrOtherP", "Blank", "Created", "Elided", "SymSig", "SymPlain", "SymParen1", "LocNoPcPath",
 		"NoParen", "LocNoPc", "LocPc", "LocParenPc", "LocPathPc", "LocHuge", "LocBad"}
 	pre := []string{"NoParen", "NoParen", "Blank", "HdrOther", "SymPlain", "LocPc", "LocNoPc", "SymSig", "LocPathPc", "Created", "LocBad", "LocHuge"}
 	entries := func(n int) {
@@ -634,8 +654,10 @@ func randomKinds(rng *rand.Rand) []string {
 			switch r := rng.Intn(100); {
 			case r < 60:
 				add("LocPc")
-			case r < 80:
+			case r < 76:
 				add("LocNoPc")
+			case r < 80:
+				add("LocNoPcPath")
 			case r < 88:
 				add("LocParenPc")
 			case r < 94:
